@@ -1,4 +1,6 @@
-CONSTANTS MaxToks = 3
+CONSTANTS AllCapsRule = FALSE
+          LatinLower = FALSE
+          MaxToks = 3
           MaxWord = 1
 INIT TInit
 NEXT TNext
